@@ -47,7 +47,9 @@ def parseValueStr (s : String) : Option Resp :=
 def renderMsgs (ms : List Resp) : String :=
   if ms.isEmpty then "-" else ";".intercalate (ms.map render)
 
-def handle (kind : String) (args : List String) (impl : String) : String :=
+def handle (kind0 : String) (args : List String) (impl : String) : String :=
+  -- c10.dece: the last bytes arrive together with io.EOF; for the reader's user that is the same stream
+  let kind := if kind0 == "c10.dece" then "c10.dec" else kind0
   match kind, args with
   | "c10.dec", szs :: chunkHex =>
     match szs.toNat?, chunkHex.mapM parseHex with
